@@ -111,7 +111,7 @@ FACTS = [
     ("ev_early_return", "e", "xmpp_run_once", "if(ret==0&&tls_read_bytes==0)return;"),
     ("ev_read_when_pending", "e", "xmpp_run_once",
      "if(FD_ISSET(conn->sock,&rfds)||intf->pending(intf)){ret=intf->read(intf,buf,STROPHE_MESSAGE_BUFFER_SIZE);"
-     "if(ret>0){ret=parser_feed(conn->parser,buf,ret);"),
+     "if(ret>0){intlen=ret;ret=parser_feed(conn->parser,buf,len);"),
     ("ev_zero_is_close", "e", "xmpp_run_once",
      "interr=intf->get_error(intf);if(!intf->error_is_recoverable(intf,err)){conn->error=err;conn_disconnect(conn);}"
      "elseif(ret==0&&!conn->tls){conn->error=ECONNRESET;conn_disconnect(conn);}"),
